@@ -151,3 +151,14 @@ def kani_harnesses(cfg):
     q = cfg['tier'] == 'quick'
     hs = [{'id': 'K4-message-id', 'harness': 'k4_message_id_new', 'quick': True, 'desc': 'MessageId::new on the compiled code: value == a*2^32+b and injective, all u32 x u32'}]
     return [h for h in hs if not q or h.get('quick')]
+
+
+_obligations_c08b = obligations
+
+
+def obligations(ctx, cfg):
+    # the topic actor as its own constructor starts it (attach order = creation order is what the fan-out iterates)
+    from props.C11 import TopicActorHistory
+    th = TopicActorHistory(ctx)
+    th.id = 'C08.f-history-topic-actor'
+    return _obligations_c08b(ctx, cfg) + [th]
